@@ -641,17 +641,136 @@ def rule_d10(toks, log):
 
 
 # ---------------------------------------------------------------------------------------
+# D11: arithmetic operator between two parenthesised references ==> the trait method it stands for
+
+_D11_OPS = {'/': 'Div :: div', '%': 'Rem :: rem', '+': 'Add :: add', '-': 'Sub :: sub', '*': 'Mul :: mul'}
+
+
+def rule_d11(toks, log):
+    """`(&A) OP (&B)` as a complete expression (preceded by `=`, `(`, `{`, `}`, `;`, `,` or an annotation; followed by
+    `;`, `)`, `}`, `,` or an annotation) ==> `core::ops::Tr::m((&A), (&B))`.  This is Rust's own definition of the
+    operator for non-primitive operands; Verus (this build) crashes with an internal error
+    (`codegen_select_candidate failed`) on overloaded arithmetic operators whose operands are references."""
+    out = list(toks)
+    i = 0
+    while i < len(out):
+        t = out[i]
+        if t[0] == 'p' and t[1] == '(' and not t[2] and i + 1 < len(out) and _is(out[i + 1], '&') \
+                and (i == 0 or out[i - 1][2] or (out[i - 1][0] == 'p' and out[i - 1][1] in ('=', '(', '{', '}', ';', ','))):
+            e1 = _match_close(out, i)
+            if e1 + 2 < len(out) and out[e1 + 1][0] == 'p' and out[e1 + 1][1] in _D11_OPS and not out[e1 + 1][2] \
+                    and _is(out[e1 + 2], '(') and e1 + 3 < len(out) and _is(out[e1 + 3], '&'):
+                e2 = _match_close(out, e1 + 2)
+                nxt = out[e2 + 1] if e2 + 1 < len(out) else None
+                if nxt is not None and (nxt[2] or (nxt[0] == 'p' and nxt[1] in (';', ')', '}', ','))) \
+                        and not any(x[2] for x in out[i:e2 + 1]):
+                    op = out[e1 + 1][1]
+                    log.append('D11 `%s` -> core::ops::%s(..)' % (_txt(out[i:e2 + 1])[:80], _D11_OPS[op].replace(' ', '')))
+                    new = toks_of('core :: ops :: %s (' % _D11_OPS[op], False) + out[i:e1 + 1] + [T('p', ',')] + \
+                        out[e1 + 2:e2 + 1] + [T('p', ')')]
+                    out = out[:i] + new + out[e2 + 1:]
+                    i += len(new)
+                    continue
+        i += 1
+    return out
+
+
+# ---------------------------------------------------------------------------------------
+# D2: hoist a method out of its impl block (directive `#[hoist(Self = T, Output = U, ..)]` in the contract block)
+
+def rule_d2(toks, log):
+    """A method of `impl X` / `impl Tr for X` becomes a free function: the receiver `self` / `mut self` / `&self` /
+    `&mut self` becomes the first parameter `self_: X` / `mut self_: X` / `self_: &X` / `self_: &mut X`, every other
+    `self` becomes `self_`, `Self::Name` becomes the associated type given in the directive and `Self` becomes X.
+    Requested by the annotated copy with `#[hoist(Self = X, Name = U, ..)]` as the first tokens of its contract block
+    (Verus rejects `requires` on trait-impl methods, and the vacuity canary cannot live inside a foreign trait's impl).
+    The function body is otherwise untouched."""
+    i = 0
+    while i + 3 < len(toks):
+        if toks[i][2] and _is(toks[i], '#') and _is(toks[i + 1], '[') and _is(toks[i + 2], 'hoist') and _is(toks[i + 3], '('):
+            break
+        i += 1
+    else:
+        return toks
+    ce = _match_close(toks, i + 3)
+    if not (ce + 1 < len(toks) and _is(toks[ce + 1], ']')):
+        raise Unsupported('D2: malformed hoist directive')
+    amap = {}
+    for part in _split_top(toks[i + 4:ce]):
+        if not part:
+            continue
+        if len(part) < 3 or part[0][0] != 'id' or not _is(part[1], '='):
+            raise Unsupported('D2: malformed hoist directive entry `%s`' % _txt(part))
+        amap[part[0][1]] = [T(k, t, False) for k, t, _ in part[2:]]
+    if 'Self' not in amap:
+        raise Unsupported('D2: hoist directive without `Self = ..`')
+    ts = toks[:i] + toks[ce + 2:]
+    selfty = amap['Self']
+    # receiver
+    f = None
+    for k, t in enumerate(ts):
+        if _is(t, 'fn') and not t[2]:
+            f = k
+            break
+    if f is None:
+        raise Unsupported('D2: no fn')
+    j = f + 1
+    gd = 0
+    while True:
+        if ts[j][0] == 'p' and ts[j][1] == '<':
+            gd += 1
+        elif ts[j][0] == 'p' and ts[j][1] in ('>', '>>') and gd > 0:
+            gd -= len(ts[j][1])
+        elif gd == 0 and _is(ts[j], '('):
+            break
+        j += 1
+    e = _match_close(ts, j)
+    parts = _split_top(ts[j + 1:e])
+    recv = _txt(parts[0]) if parts and parts[0] else ''
+    forms = {'self': 'self_ :', 'mut self': 'mut self_ :', '& self': 'self_ : &', '& mut self': 'self_ : & mut'}
+    if recv in forms:
+        new_first = toks_of(forms[recv], False) + selfty
+        ts = ts[:j + 1] + new_first + ts[j + 1 + len(parts[0]):]
+        what = 'receiver `%s` -> `%s %s`' % (recv, forms[recv], _txt(selfty))
+    elif any(x[1] == 'self' for x in (parts[0] if parts else [])):
+        raise Unsupported('D2: receiver shape `%s`' % recv)
+    else:
+        what = 'no receiver'
+    out = []
+    k = 0
+    while k < len(ts):
+        t = ts[k]
+        if t[0] == 'id' and t[1] == 'self':
+            out.append(T('id', 'self_', t[2]))
+        elif t[0] == 'id' and t[1] == 'Self':
+            if k + 2 < len(ts) and _is(ts[k + 1], '::') and ts[k + 2][0] == 'id' and ts[k + 2][1] in amap \
+                    and ts[k + 2][1] != 'Self':
+                out += amap[ts[k + 2][1]]
+                k += 3
+                continue
+            out += selfty
+        else:
+            out.append(t)
+        k += 1
+    log.append('D2 hoist: method -> free function (%s; Self -> %s%s)' % (
+        what, _txt(selfty), ''.join('; Self::%s -> %s' % (n, _txt(v)) for n, v in amap.items() if n != 'Self')))
+    return out
+
+
+# ---------------------------------------------------------------------------------------
 
 def lower(toks, marks, opts=None):
     """toks: [(kind,text)], marks: [bool]; returns ([(kind,text)], log)."""
     opts = opts or {}
     log = []
     ts = [(k, t, m) for (k, t), m in zip(toks, marks)]
+    ts = rule_d2(ts, log)
     ts = rule_d5(ts, log)
     ts = rule_d6(ts, log)
     ts = rule_d3(ts, log, drop=opts.get('drop_asserts', ()))
     ts = rule_d4a(ts, log)
     ts = rule_d10(ts, log)
+    ts = rule_d11(ts, log)
     ts = rule_d7(ts, log)
     ts = rule_d1(ts, log)
     ts = rule_d9(ts, log)
